@@ -81,6 +81,17 @@ CHECKS = [
   "design_ref": "DESIGN.md §6 C13",
   "note": TB + " Reverse-call panics (client-side handlers) are exercised by the C16 scenarios, not here.",
   "technique": "Lean 4 theorems (frame lemma on the executor state) + regenerated facts + subprocess scenario correspondence"},
+ {"property_id": "C01",
+  "text": "Theorems over the model of the reflection proxy on both sides (handleRpcCall param building incl. custom encoders and raw params; "
+          "handle's callParams incl. custom decoders; result path with processFuncOut positions), for every codec, signature and argument list: "
+          "the handler is invoked with the context first iff declared and then exactly the JSON round trip of each argument into its declared "
+          "type, in order, nothing else, and is not reached iff some round trip fails; raw params arrive verbatim; the caller's value is the round "
+          "trip of the handler's value with a nil error, or the zero value with a non-nil error when the handler failed. Tie: regenerated skeletons "
+          "of handleRpcCall/handle/register/makeRpcFunc/processFuncOut/param + differential run over 25 real signatures, the property's value "
+          "classes, three transports and five formatters, with the property's oracle (json round trip, DeepEqual) evaluated on what the real handler received.",
+  "design_ref": "DESIGN.md §6 C01",
+  "note": TB + " encoding/json and reflect are parameters/trusted; the model executes on argument indices, value fidelity is checked by the harness oracle.",
+  "technique": "Lean 4 theorems (structural induction over argument lists, parametric codec) + regenerated skeleton facts + differential correspondence"},
 ]
 
 _PENDING = "check under construction in this round (see DESIGN.md §13 build order); not claimed until its theorem file, tie and unchanged-tree sweep exist"
